@@ -144,11 +144,14 @@ type judge struct {
 	r      *mon.Run
 	eng    string
 	idx    int
-	ctx    map[string]any // configuration, for witnesses
-	served []string       // pins of the leaves seen in handshakes
-	bad    int            // violations recorded by this judge
-	class  string         // when set: the phase this judge works in (names key and counter instead of the site)
-	chain  *chainCache    // when set: the listener was started on this harness-made chain cache (counters and witnesses only)
+	ctx    map[string]any    // configuration, for witnesses
+	served []string          // pins of the leaves seen in handshakes
+	bad    int               // violations recorded by this judge
+	class  string            // when set: the phase this judge works in (names key and counter instead of the site)
+	chain  *chainCache       // when set: the listener was started on this harness-made chain cache (counters and witnesses only)
+	leaf   *x509.Certificate // the leaf of the first handshake (its key type decides what restricted clients can be expected to do)
+	capRot int               // where this run starts in the list of curl restrictions (caps.go)
+	capK   int               // which start / run of the case this is (rotation of the slow client profiles, caps.go)
 }
 
 const classChanged = "cache-changed-under-listener"
@@ -531,6 +534,9 @@ func (j *judge) handshake(addr, sni string) (string, error) {
 		return "", fmt.Errorf("no certificate presented")
 	}
 	p := hk.Pin(c.Chain[0])
+	if j.leaf == nil {
+		j.leaf = c.Chain[0]
+	}
 	j.r.Count("handshakes", 1)
 	if len(c.Chain) > 1 {
 		j.r.Count("handshakes_presenting_issuer_certificates", 1)
@@ -592,7 +598,13 @@ type curlResult struct {
 
 // curlFor runs the printed command with real curl; pin "" = as printed.
 func curlFor(work string, ol oneLiner, pin string, connectTo string) curlResult {
-	args := strings.Fields(ol.Text)[1:]
+	return curlForX(work, ol, pin, connectTo, nil)
+}
+
+// curlForX is curlFor with more options put before the printed ones (a curl
+// restricted in what it offers: caps.go).
+func curlForX(work string, ol oneLiner, pin string, connectTo string, extra []string) curlResult {
+	args := append(append([]string(nil), extra...), strings.Fields(ol.Text)[1:]...)
 	if pin != "" {
 		for i, a := range args {
 			if strings.HasPrefix(a, "sha256//") {
@@ -638,6 +650,7 @@ func tlsLevel(code int) bool {
 func (j *judge) curlChecks(work string, ols []oneLiner, mainHost, bound string, covers func(netip.Addr) bool, rng *rand.Rand) []map[string]any {
 	var log []map[string]any
 	seen := map[string]bool{}
+	nRun := 0
 	for _, ol := range ols {
 		if seen[ol.Text] {
 			continue
@@ -690,6 +703,7 @@ func (j *judge) curlChecks(work string, ols []oneLiner, mainHost, bound string, 
 		}
 		entry["advertised_exit"] = res.Exit
 		entry["advertised_http"] = res.HTTPCode
+		advOK, altOK := res.Exit == 0, false
 		switch {
 		case res.Exit == 0:
 			j.r.Count("curl_pinned_ok", 1)
@@ -717,6 +731,7 @@ func (j *judge) curlChecks(work string, ols []oneLiner, mainHost, bound string, 
 			entry["altered_exit"] = res.Exit
 			switch res.Exit {
 			case 90:
+				altOK = true
 				j.r.Count("curl_altered_rejected", 1)
 				if j.chain != nil {
 					j.r.Count("curl_altered_rejected_on_chain_cache", 1)
@@ -726,6 +741,13 @@ func (j *judge) curlChecks(work string, ols []oneLiner, mainHost, bound string, 
 			default:
 				j.r.Inconclusive(fmt.Sprintf("curl with altered pin on %q neither connected nor reported a pin mismatch (exit %d, %s)", ol.Text, res.Exit, res.Stderr))
 			}
+		}
+		// the same command from clients restricted in what they offer
+		if advOK && altOK {
+			if cl := j.curlCaps(work, ol, connectTo, nRun, rng); cl != nil {
+				entry["restricted_curl"] = cl
+			}
+			nRun++
 		}
 		log = append(log, entry)
 	}
@@ -1208,6 +1230,9 @@ func binOneRun(r *mon.Run, eng, bin string, fx fixtures, i, k int, c binCase, cc
 	target := net.JoinHostPort(mainHost, bound)
 	j.handshake(target, "cb.example")
 	out.pin = j.served[0]
+	// clients restricted in what they offer
+	j.capRot, j.capK = capRotOf(eng, i, k), k
+	j.clientCaps(target)
 
 	// One (or two) shells, so that the help is printed again.
 	if !light {
@@ -1682,6 +1707,9 @@ func inOne(r *mon.Run, eng string, s *hk.Server, i, k int, c inCase, cc *chainCa
 	} else {
 		r.Inconclusive(fmt.Sprintf("%s %d: handshake with SNI failed: %v", eng, i, err))
 	}
+	// clients restricted in what they offer
+	j.capK = k
+	j.clientCaps(target)
 	shells := 0
 	if c.Shell {
 		id := fmt.Sprintf("c05y%x", rng.Uint32())
@@ -1848,7 +1876,7 @@ func raceCaseRun(r *mon.Run, fx fixtures, i int) {
 // ---- Run ----------------------------------------------------------------------------------------
 
 func Run(r *mon.Run) {
-	r.Rule = "engine binary: the real -race binary on a pty, configurations drawn from listen form {127.0.0.1:0, 127.0.0.1, [::1]:0, ::1, 0.0.0.0:0, :0, [::]:0, fixed free port v4/v6} (stratified over the index) x -callback-address {none, host, host:port, several} x -serve-files-from {off, dir, file} x -ipv6-one-liners x template {default, custom with two uses of .PubkeyFP} x certificate cache {off, fresh file, file of an earlier run, 2-4 restarts on one file, default path under a private HOME}; for every run the bound port is read from the child's listening socket (/proc/<pid>/fd inode in /proc/<pid>/net/tcp{,6}), the served leaf is taken from TLS handshakes (with and without SNI, on every printed address that is an address of the listener) and hk.Pin computed by the harness; every sha256//... text on the terminal (file one-liners, shell one-liners, the help re-printed after a fake shell died) and in 2-3 /c bodies (Host, c2 query, c2 header, HTTP/1.0+SNI variants) must equal it and be std-base64 of 32 bytes; every printed one-liner must name the bound port (a one-liner without a port names 443) or a port the user gave for that host, and a host the user gave only WITH a port (not an address of this machine) must keep exactly that port; real /usr/bin/curl is run with each printed command verbatim (must exit 0; 200 for /c) and with one bit of the pin flipped (must exit 90), directly when the printed address belongs to the listener, else with --connect-to; restarts on one cache must serve and advertise one pin; in about half of the runs one printed shell one-liner that names an address of the listener is run verbatim under /bin/sh (real curl fetches /c, the script's two curl commands carry a real shell, 'exit' ends it) and the help printed afterwards is judged too. engine inproc: hsrv.New in-process, same text/handshake/script/port/restart oracles without curl. THE CACHE CHANGES UNDER A RUNNING LISTENER (every inproc case with a cache file, in one start of its restart sequence drawn per case; every binary case with a cache file, in its last run): after the start-up checks the cache file is replaced through sstls.SaveCertificate by a harness-made currently-valid certificate with another key, then fresh handshakes without SNI (every address) and with SNI (two names), /c fetched plainly and as HTTP/1.0 on an SNI connection (binary: also real curl run as printed on a one-liner that names a host, i.e. with SNI): every fingerprint the process has shown so far and embeds now must equal the pin of every key presented now (key class cache-changed-under-listener); the starts after the replacement must serve and advertise the replaced cache's key. engine inproc-race: two servers started at the same moment (one gate) on one cache path that does not exist yet, up to 5 attempts until they really made different keys; each one's fingerprints must be the pin of what IT presents without and with SNI. PORT 443 (engines inproc-443 and binary-443; the harness is root): the listener is bound to 127.0.0.1:443 | 127.0.0.2:443 | 127.0.0.3:443 | [::1]:443 (first one free, rotation by index; one such listener at a time per run, other processes' use = next candidate / bounded wait, none available = counted + inconclusive note) x callback addresses with explicit ports 8888/8443/444/443 and without, bare IPv6 literals and internationalised names typed in UTF-8 with a non-ASCII last label (fixed list, in turn; one-liners for non-ASCII names are judged as text, not run with curl) x files x cache (with the cache change); same oracles. CACHES THE PROGRAM DID NOT WRITE ITSELF (engines inproc-chain: 2-4 starts per case, and binary-chain: 2-3 runs of the real binary per case with the real-curl checks, explicit cache path and default path under a private HOME): before the first start the harness writes the cache archive itself: cert section = a CA hierarchy made with crypto/x509, LEAF FIRST then its issuers (1, 2 or 3 certificates, stratified over the index), key section = the leaf's key; key types of leaf (stratified) and issuers (drawn) from ECDSA P-256 / RSA 2048 / Ed25519 / ECDSA P-384; between the PEM blocks nothing | blank lines | the text openssl s_client -showcerts prints | openssl pkcs12 bag attributes | CRLF line ends; private key as PKCS#8 or as EC/RSA PRIVATE KEY; archive laid out cert-key | key-cert | with a comment and other sections around; during one start (inproc) / under the last run (binary) the cache is replaced by another such chain, which the later starts load. A start-up error on such a file is counted and not judged (the program need not take it), which key of the file the program uses is counted and not judged (C08); every start that comes up is judged with the same oracles as everywhere: every advertised fingerprint equals the pin of the first certificate the listener presents in handshakes, real curl run as printed connects and with one bit of the pin flipped exits 90, restarts on the unchanged cache serve and advertise one pin. distinct = configuration signature + served pin; all non-trivial (each has at least one advertised fingerprint compared with a handshake)"
+	r.Rule = "engine binary: the real -race binary on a pty, configurations drawn from listen form {127.0.0.1:0, 127.0.0.1, [::1]:0, ::1, 0.0.0.0:0, :0, [::]:0, fixed free port v4/v6} (stratified over the index) x -callback-address {none, host, host:port, several} x -serve-files-from {off, dir, file} x -ipv6-one-liners x template {default, custom with two uses of .PubkeyFP} x certificate cache {off, fresh file, file of an earlier run, 2-4 restarts on one file, default path under a private HOME}; for every run the bound port is read from the child's listening socket (/proc/<pid>/fd inode in /proc/<pid>/net/tcp{,6}), the served leaf is taken from TLS handshakes (with and without SNI, on every printed address that is an address of the listener) and hk.Pin computed by the harness; every sha256//... text on the terminal (file one-liners, shell one-liners, the help re-printed after a fake shell died) and in 2-3 /c bodies (Host, c2 query, c2 header, HTTP/1.0+SNI variants) must equal it and be std-base64 of 32 bytes; every printed one-liner must name the bound port (a one-liner without a port names 443) or a port the user gave for that host, and a host the user gave only WITH a port (not an address of this machine) must keep exactly that port; real /usr/bin/curl is run with each printed command verbatim (must exit 0; 200 for /c) and with one bit of the pin flipped (must exit 90), directly when the printed address belongs to the listener, else with --connect-to; restarts on one cache must serve and advertise one pin; in about half of the runs one printed shell one-liner that names an address of the listener is run verbatim under /bin/sh (real curl fetches /c, the script's two curl commands carry a real shell, 'exit' ends it) and the help printed afterwards is judged too. engine inproc: hsrv.New in-process, same text/handshake/script/port/restart oracles without curl. THE CACHE CHANGES UNDER A RUNNING LISTENER (every inproc case with a cache file, in one start of its restart sequence drawn per case; every binary case with a cache file, in its last run): after the start-up checks the cache file is replaced through sstls.SaveCertificate by a harness-made currently-valid certificate with another key, then fresh handshakes without SNI (every address) and with SNI (two names), /c fetched plainly and as HTTP/1.0 on an SNI connection (binary: also real curl run as printed on a one-liner that names a host, i.e. with SNI): every fingerprint the process has shown so far and embeds now must equal the pin of every key presented now (key class cache-changed-under-listener); the starts after the replacement must serve and advertise the replaced cache's key. engine inproc-race: two servers started at the same moment (one gate) on one cache path that does not exist yet, up to 5 attempts until they really made different keys; each one's fingerprints must be the pin of what IT presents without and with SNI. PORT 443 (engines inproc-443 and binary-443; the harness is root): the listener is bound to 127.0.0.1:443 | 127.0.0.2:443 | 127.0.0.3:443 | [::1]:443 (first one free, rotation by index; one such listener at a time per run, other processes' use = next candidate / bounded wait, none available = counted + inconclusive note) x callback addresses with explicit ports 8888/8443/444/443 and without, bare IPv6 literals and internationalised names typed in UTF-8 with a non-ASCII last label (fixed list, in turn; one-liners for non-ASCII names are judged as text, not run with curl) x files x cache (with the cache change); same oracles. CACHES THE PROGRAM DID NOT WRITE ITSELF (engines inproc-chain: 2-4 starts per case, and binary-chain: 2-3 runs of the real binary per case with the real-curl checks, explicit cache path and default path under a private HOME): before the first start the harness writes the cache archive itself: cert section = a CA hierarchy made with crypto/x509, LEAF FIRST then its issuers (1, 2 or 3 certificates, stratified over the index), key section = the leaf's key; key types of leaf (stratified) and issuers (drawn) from ECDSA P-256 / RSA 2048 / Ed25519 / ECDSA P-384; between the PEM blocks nothing | blank lines | the text openssl s_client -showcerts prints | openssl pkcs12 bag attributes | CRLF line ends; private key as PKCS#8 or as EC/RSA PRIVATE KEY; archive laid out cert-key | key-cert | with a comment and other sections around; during one start (inproc) / under the last run (binary) the cache is replaced by another such chain, which the later starts load. A start-up error on such a file is counted and not judged (the program need not take it), which key of the file the program uses is counted and not judged (C08); every start that comes up is judged with the same oracles as everywhere: every advertised fingerprint equals the pin of the first certificate the listener presents in handshakes, real curl run as printed connects and with one bit of the pin flipped exits 90, restarts on the unchanged cache serve and advertise one pin. CLIENT TLS CAPABILITIES (every start of every engine, right after the first handshakes; caps.go): the handshake is repeated by crypto/tls clients restricted in what they offer: CurvePreferences {P-256} | {P-384} | {P-521} | {X25519} | {P-256,P-384,P-521}, MaxVersion TLS 1.2, MinVersion TLS 1.3, version x curve combinations, one single TLS 1.2 cipher suite (ECDHE-ECDSA-... for ECDSA/Ed25519 keys, ECDHE-RSA-... for RSA keys; AES128-GCM-SHA256 | AES256-GCM-SHA384 | CHACHA20-POLY1305) alone and with one curve; 19 profiles, every listener gets the 13 cheap ones and one of the 6 whose only group is P-384 or P-521 (in turn over index+start), with and without SNI in turn; the leaf presented to such a client joins the served pins every advertised fingerprint is compared with; a handshake that fails is a violation (key restricted-client-cannot-connect:<profile>) when three attempts in a row were refused by the TLS peer (no connect failure, no deadline), a client with Go's defaults connects to the same address at that moment, and the same restricted client was taken by a plain listener of the harness (tls.Listen with nothing but a self-signed certificate of the same key type as the served leaf; started and probed once per key type met). Real curl (engines binary, binary-443, binary-chain): every printed one-liner that connected as printed and was refused with the altered pin is run again with two of 17 restrictions (in turn over case, run and position): --curves prime256v1 | secp384r1 | secp521r1 | X25519 | prime256v1:secp384r1:secp521r1, --tls-max 1.2, --tlsv1.3, --tls-max 1.2 --ciphers <one of the three suites>, --tlsv1.3 --tls13-ciphers <one of the three TLS 1.3 suites>, version x curve and suite x curve combinations; with the advertised pin it must exit 0 (a TLS-level exit code is violation curl-advertised-pin-rejected:<restriction>), and for the first of the two with one bit of the pin flipped it must exit 90; a restriction is only used for a key type when this machine's curl, so restricted, connected with the right pin to the harness's plain listener of that key type and exited 90 there with the altered pin, else it is counted as not explored (client_caps_curl_option_not_usable_here / _not_explored) and never judged. distinct = configuration signature + served pin; all non-trivial (each has at least one advertised fingerprint compared with a handshake)"
 	r.Assumptions = []string{
 		"callback host names (cb.example ...) do not resolve here: their one-liners are exercised with curl --connect-to, which checks the same pin against the same listener",
 		"link-local IPv6 one-liners carry no zone and cannot be connected to directly; same treatment",
@@ -1858,8 +1886,11 @@ func Run(r *mon.Run) {
 		"after the cache file changed under a running listener the listener may keep its key or adopt the new one; only 'advertised == presented' is demanded (for what was printed before the change too: the operator still uses those lines)",
 		"a certificate cache whose cert section holds the leaf followed by its issuers (a 'fullchain' as a CA hands it out), with any of the key types crypto/tls serves, with text between the PEM blocks that PEM readers skip, is a legitimate cache: the statement quantifies over every cached key pair and does not say who wrote the cache; whether the program accepts such a file is not judged, only what it advertises once it listens",
 		"port 443 on the loopback addresses is free or only briefly taken by other runs of this check; if it cannot be bound at all the port-443 floors make the run inconclusive",
+		"'curl --pinnedpubkey with the advertised value connects' is said of curl as the targets have it, not of one build: a client that offers less than a current curl/OpenSSL or Go does (only NIST curves, only TLS 1.2 or only TLS 1.3, a single AEAD cipher suite) must still connect with the advertised pin, as far as crypto/tls itself serves such a client: what crypto/tls serves is measured on a plain tls.Listen of the harness with the same key type, never assumed (TLS 1.0/1.1, non-ECDHE and CBC suites are not tried at all)",
+		"which restrictions this machine's curl/OpenSSL can be given is measured on the same plain listener; an option it cannot do (or that cannot work with the served key type, like a TLS 1.2 client whose only group is not the curve of the ECDSA certificate) is not explored and reported so (coverage keys client_caps_curl_options_not_explored_on_this_machine, client_caps_*_not_usable_here)",
 	}
 	fx := makeFixtures(r.Work)
+	defer caps.close()
 
 	if r.WantEngine(engBin) {
 		bin, err := crs.Build(r.Work, "")
@@ -1969,6 +2000,8 @@ func Run(r *mon.Run) {
 	}
 	// caches the program did not write itself
 	chainFloors(r, q)
+	// clients restricted in what they offer
+	capFloors(r, q)
 	r.Floor("handshakes", q(150, 1500))
 	r.Floor("bound_port_from_proc", q(16, 200))
 	r.Floor("curl_pinned_ok", q(20, 300))
